@@ -7,6 +7,7 @@ import (
 	"sort"
 	"time"
 
+	"github.com/ethereum/go-ethereum/common"
 	ethcrypto "github.com/ethereum/go-ethereum/crypto"
 	pubsub "github.com/libp2p/go-libp2p-pubsub"
 
@@ -42,6 +43,14 @@ func runC06(r *simkit.Run) {
 		w.fl = flGnosis
 	}
 	recv := c.Intn(n, "receiver")
+	// an unusual but legal keyper set: one member (not the receiver) is the zero address - a
+	// member nobody can sign for, so no signature attributed to it is ever genuine
+	zeroIdx := -1
+	if n >= 2 && c.Chance(150, "zero-address-member") {
+		zeroIdx = (recv + 1 + c.Intn(n-1, "zero-address-index")) % n
+		w.addrs[zeroIdx] = common.Address{}
+		r.Probe("zero-address-member")
+	}
 	nd := w.addNode("recv", recv, dkgSuccess, nil)
 	var access *cNode
 	if w.fl == flGnosis {
@@ -89,6 +98,11 @@ func runC06(r *simkit.Run) {
 		var ids [][]byte
 		for i := 0; i < nid; i++ {
 			ids = append(ids, mkID(fmt.Sprintf("id-%d-%d", mi, i)))
+		}
+		if c.Chance(120, "repeated-identity") {
+			// equal neighbours are legal (identities need only be non-decreasing)
+			ids = append(ids, ids[c.Intn(len(ids), "repeated-which")])
+			r.Probe("repeated-identity-signed")
 		}
 		sort.Slice(ids, func(i, j int) bool { return bytes.Compare(ids[i], ids[j]) < 0 })
 		km := &p2pmsg.DecryptionKeys{InstanceId: cInstanceID, Eon: uint64(w.kci)}
@@ -181,8 +195,29 @@ func runC06(r *simkit.Run) {
 				signer = members[0]
 				allGood = false
 			}
-			kind := c.Weighted([]int{12, 1, 1, 2, 1, 1}, "sig-kind")
+			kind := c.Weighted([]int{12, 1, 1, 2, 1, 1, 1}, "sig-kind")
+			if i < len(signers) && int(signers[i]) == zeroIdx && c.Chance(700, "zero-member-undecodable") {
+				kind = 6
+			}
 			switch kind {
+			case 6: // undecodable: no public key can be recovered from it
+				allGood = false
+				switch c.Intn(5, "undecodable-shape") {
+				case 0:
+					sigs = append(sigs, []byte{})
+				case 1:
+					sigs = append(sigs, c.Bytes(64, "short-sig"))
+				case 2:
+					sigs = append(sigs, make([]byte, 65))
+				case 3:
+					sg := sign(signer, cInstanceID, uint64(w.kci), slot, txp, ids)
+					if len(sg) == 65 {
+						sg[64] = byte(4 + c.Intn(250, "bad-recovery-id"))
+					}
+					sigs = append(sigs, sg)
+				default:
+					sigs = append(sigs, c.Bytes(66, "long-sig"))
+				}
 			case 0:
 				sigs = append(sigs, sign(signer, cInstanceID, uint64(w.kci), slot, txp, ids))
 			case 1: // another member (may coincide with the listed signer)
@@ -252,7 +287,14 @@ func runC06(r *simkit.Run) {
 		// post-signing single-field change of the message
 		changed := ""
 		if c.Chance(200, "post-change") {
-			switch c.Intn(5, "post-field") {
+			switch c.Intn(6, "post-field") {
+			case 5:
+				// one key (with its identity) is repeated right behind itself: still sorted, but no
+				// longer the list that was signed
+				j := c.Intn(len(km.Keys), "repeat-which")
+				cp := &p2pmsg.Key{IdentityPreimage: append([]byte{}, km.Keys[j].IdentityPreimage...), Key: append([]byte{}, km.Keys[j].Key...)}
+				km.Keys = append(km.Keys[:j+1], append([]*p2pmsg.Key{cp}, km.Keys[j+1:]...)...)
+				changed = "identity-repeated"
 			case 4:
 				// the last identity grows or shrinks by one byte (with the valid key of the new
 				// identity): it no longer fits the signed container, nothing can be signed over it
@@ -307,7 +349,7 @@ func runC06(r *simkit.Run) {
 			sigOK = !noExtra && structOK && len(sigs) == len(signers)
 			if sigOK {
 				for i := range sigs {
-					if !bytes.Equal(sigs[i], sign(members[signers[i]], km.InstanceId, km.Eon, fslot, ftxp, fids)) {
+					if int(signers[i]) == zeroIdx || !bytes.Equal(sigs[i], sign(members[signers[i]], km.InstanceId, km.Eon, fslot, ftxp, fids)) {
 						sigOK = false
 					}
 				}
